@@ -199,6 +199,12 @@ theorem c09_default (env : Env) (hwf : WF env = true) (p : Spec) (d : Arg) (t : 
          if env.exc.isSub e.cls "GlomError" then (argVal d t, (matchGlom env p none t).2)
          else (.error e, (matchGlom env p none t).2)) := by
   have hw := WF.facts hwf
+  have hnone : matchGlom env p none t = eval env p t := by
+    simp only [matchGlom, eval]
+    cases h : (eval env p t).1 with
+    | ok v => rfl
+    | error e => simp only; split <;> rfl
+  rw [hnone]
   simp only [matchGlom, eval]
   cases h : (eval env p t).1 with
   | ok v => simp only; exact fst_eq h
@@ -229,7 +235,8 @@ theorem c09_model_checks (env : Env) (f : Facts9) (hwf : WF env = true) (hwf9 : 
     · simp [h2, matchesM, h1, obsOfMatches, observe, obsIsOk, leavesAsGlomError, classOK_glom hcl, hcatch]
     · rw [h2]
       simp only [matchesM, h1, obsOfMatches]
-      split <;> simp
+      cases (leavesAsGlomError env e &&
+        ((env.catches.lookup "Match.matches").bind (·[0]?) == some ["GlomError"])) <;> simp
   · -- two-valued reading
     cases hd : constDefaults p with
     | false => simp
@@ -283,9 +290,11 @@ example : conforms genEnv.cls exPat exTarget = true := by decide
 example : (matchGlom genEnv exPat none exTarget).1 = .ok
     (.list [.dict [(.str "id", .int 1), (.str "email", .str "a@b"), (.str "nick", .str "")],
             .dict [(.str "id", .int 2), (.str "email", .str "c@d"), (.str "nick", .str "bo")]]) := by decide
--- near misses: a wrong type, a missing required key, an extra key
-example : (matchGlom genEnv exPat none (.list [.dict [(.str "id", .str "x"), (.str "email", .str "a@b")]])).1
+-- near misses: a wrong type, a missing required key; and `M > 0` on a str id *faults*
+example : (matchGlom genEnv exPat none (.list [.dict [(.str "id", .flt 3), (.str "email", .str "a@b")]])).1
     = .error ⟨"TypeMatchError"⟩ := by decide
+example : (matchGlom genEnv exPat none (.list [.dict [(.str "id", .str "x"), (.str "email", .str "a@b")]])).1
+    = .error ⟨"TypeError"⟩ := by decide
 example : (matchGlom genEnv exPat none (.list [.dict [(.str "id", .int 1)]])).1 = .error ⟨"MatchError"⟩ := by
   decide
 example : conforms genEnv.cls exPat (.list [.dict [(.str "id", .int 1)]]) = false := by decide
